@@ -153,8 +153,15 @@ def run(t, budget=1.0):
             f2, s2, subctrl = M.walk_group_view(gl, sub)
         else:
             f2, s2, subctrl = fits, sz, ctrl
+        # (blockLength, numInGroup) control pairs of flat groups: candidates for products that wrap in a narrow intermediate type
+        pairs = []
+        for i, c in enumerate(subctrl):
+            if c[0] == "group" and i + 2 < len(subctrl) and subctrl[i + 1][0] == "blockLength" and subctrl[i + 2][0] == "numInGroup":
+                gg = find_group(L, c[3])
+                if gg is not None and not gg.groups and not gg.data:
+                    pairs.append((subctrl[i + 1], subctrl[i + 2]))
         subctrl = [c for c in subctrl if c[0] != "group"]
-        mode = data.draw(st.sampled_from(["trunc", "trunc", "overwrite", "overwrite", "random"]))
+        mode = data.draw(st.sampled_from(["trunc", "trunc", "overwrite", "overwrite", "random"] + (["wrap", "wrap"] if pairs else [])))
         res.cls("mode_" + mode)
         res.cls("view_message" if which == 0 else "view_group")
         if mode == "trunc":
@@ -184,6 +191,35 @@ def run(t, budget=1.0):
             cuts = [len(b)] + data.draw(st.lists(st.integers(0, len(b)), min_size=0, max_size=3))
             for n in cuts:
                 res.nontriv(common.text_hash(entry.dir, str(which), b[:n], "o"))
+                evaluate(entry, mi, L, which, gl, b[:n], kind, vk)
+        elif mode == "wrap":
+            # both header fields of one flat group overwritten so that numInGroup * blockLength is a multiple of (or just above)
+            # 2^32 / 2^64: the group claims gigabytes, a product computed in a narrower type claims (almost) nothing
+            blc, nic = data.draw(st.sampled_from(pairs))
+            blw, niw = blc[2], nic[2]
+            W = data.draw(st.sampled_from([32, 32, 64]))
+            a_lo = max(0, W - 8 * niw + 1)
+            a_hi = 8 * blw - 1
+            if a_lo > a_hi:
+                res.cls("wrap_not_expressible")
+                return
+            a = data.draw(st.integers(a_lo, a_hi))
+            odd = data.draw(st.sampled_from([1, 1, 3, 5]))
+            blv = (odd << a) if (odd << a) < 2 ** (8 * blw) else (1 << a)
+            niv = 1 << (W - a)
+            if data.draw(st.booleans()) and niv + 1 < 2 ** (8 * niw):
+                niv += data.draw(st.sampled_from([0, 1]))
+            if niv >= 2 ** (8 * niw) or blv >= 2 ** (8 * blw):
+                res.cls("wrap_not_expressible")
+                return
+            b = bytearray(sub)
+            b[blc[1]:blc[1] + blw] = M.pack(blv, blw)
+            b[nic[1]:nic[1] + niw] = M.pack(niv, niw)
+            b = bytes(b)
+            kind = "wrap-product-2^%d" % W
+            res.cls(kind)
+            for n in [len(b)] + data.draw(st.lists(st.integers(0, len(b)), min_size=0, max_size=2)):
+                res.nontriv(common.text_hash(entry.dir, str(which), b[:n], "w"))
                 evaluate(entry, mi, L, which, gl, b[:n], kind, vk)
         else:
             n = data.draw(st.integers(0, 48))
